@@ -18,6 +18,22 @@ import types
 Pickler = pickle._Pickler
 
 
+def _is_partially_ordered(obj):
+    """Tell if sorting a sequence containing obj can silently misbehave.
+
+    Sets (ordered by inclusion) and NaN, possibly nested in tuples, are only
+    partially ordered: sorting them does not raise but the result depends on
+    the input order.
+    """
+    if isinstance(obj, (set, frozenset)):
+        return True
+    if isinstance(obj, float):
+        return obj != obj
+    if isinstance(obj, tuple):
+        return any(_is_partially_ordered(e) for e in obj)
+    return False
+
+
 class _ConsistentSet(object):
     """Class used to ensure the hash of Sets is preserved
     whatever the order of its items.
@@ -30,11 +46,8 @@ class _ConsistentSet(object):
             # consistent and orderable.
             # This fails on python 3 when elements are unorderable
             # but we keep it in a try as it's faster.
-            if any(isinstance(e, (set, frozenset)) for e in set_sequence):
-                # Sets are only partially ordered (by inclusion): sorting
-                # them does not raise but the result depends on the input
-                # order.
-                raise TypeError("sets are not totally ordered")
+            if any(_is_partially_ordered(e) for e in set_sequence):
+                raise TypeError("elements are not totally ordered")
             self._sequence = sorted(set_sequence)
         except (TypeError, decimal.InvalidOperation):
             # If elements are unorderable, sorting them using their hash.
@@ -152,11 +165,8 @@ class Hasher(Pickler):
             # consistent and orderable.
             # This fails on python 3 when keys are unorderable
             # but we keep it in a try as it's faster.
-            if any(isinstance(k, (set, frozenset)) for k, _ in items):
-                # Sets are only partially ordered (by inclusion): sorting
-                # them does not raise but the result depends on the input
-                # order.
-                raise TypeError("sets are not totally ordered")
+            if any(_is_partially_ordered(k) for k, _ in items):
+                raise TypeError("keys are not totally ordered")
             Pickler._batch_setitems(self, iter(sorted(items)), *args)
         except TypeError:
             # If keys are unorderable, sorting them using their hash. This is
